@@ -816,7 +816,7 @@ func (StoreCorruptEngine) Decode(raw json.RawMessage) (any, error) {
 }
 
 func (StoreCorruptEngine) Gen(prop, tier string, seed uint64, yield func(c any) bool) {
-	n := 48
+	n := 96
 	if tier == "thorough" {
 		n = 6000
 	}
